@@ -67,6 +67,40 @@ func c01BasePairs() []c11Job {
 		c.Min, c.Max, s.Min, s.Max = 2, 3, 3, 3
 		c.Curves, s.Curves = []int{29, 23}, []int{29}
 	})
+	add("dual-dual", false, func(c, s *c11Cfg) {
+		full(c, s)
+		s.Key = 1
+		c.Min, c.Max, s.Min, s.Max = 2, 3, 2, 3
+		c.Curves, s.Curves = []int{29, 23}, []int{23, 29}
+	})
+	// ServerHello message hook: the server must commit what its FINAL ServerHello says
+	hook := func(name string, f func(c, s *c11Cfg, o *c11Opt)) {
+		var c, s c11Cfg
+		c.CID, s.CID = -1, -1
+		var o c11Opt
+		f(&c, &s, &o)
+		jobs = append(jobs, c11Job{gen: "base:" + name, c: c, s: s, opt: o})
+	}
+	hook("hook-appends-alpn", func(c, s *c11Cfg, o *c11Opt) {
+		s.Key = 1
+		c.ALPN = []int{1, 2}
+		o.Steer.SHALPN = 2
+	})
+	hook("hook-rewrites-alpn", func(c, s *c11Cfg, o *c11Opt) {
+		s.Key = 2
+		c.ALPN, s.ALPN = []int{1, 2}, []int{1, 2}
+		c.CID, s.CID = 4, 8
+		o.Steer.SHALPN = 2
+	})
+	hook("hook-swaps-cipher-suite", func(_, s *c11Cfg, o *c11Opt) {
+		s.Key = 2
+		o.Steer.SHSuite = 0xc02f
+	})
+	add("custom-cipher-suite", false, func(c, s *c11Cfg) {
+		full(c, s)
+		s.Key = 2
+		c.Custom, s.Custom = true, true
+	})
 	add("12client-dualserver", false, func(c, s *c11Cfg) {
 		full(c, s)
 		s.Key = 2
@@ -131,7 +165,7 @@ func TestVerifC01(t *testing.T) {
 	for i, j := range jobs {
 		j := j
 		var res c11Case
-		vBubble(t, func(t *testing.T) { res = runC11(t, i, j.gen, j.c, j.s, j.resume, j.mask) })
+		vBubble(t, func(t *testing.T) { res = runC11Opt(t, i, j.gen, j.c, j.s, j.resume, j.mask, j.opt) })
 		res.Kind = "c01"
 		out.emit(res)
 	}
